@@ -102,13 +102,13 @@ impl GraphicsState<'_> {
     pub fn dual_project_unscaled(&self, v1: Point<i32>, v2: Point<i32>) -> i32 {
         match self.dual_proj_axis {
             // <https://gitlab.freedesktop.org/freetype/freetype/-/blob/57617782464411201ce7bbc93b086c1b4d7d84a5/src/truetype/ttinterp.c#L2431>
-            CoordAxis::X => v1.x - v2.x,
+            CoordAxis::X => v1.x.wrapping_sub(v2.x),
             // <https://gitlab.freedesktop.org/freetype/freetype/-/blob/57617782464411201ce7bbc93b086c1b4d7d84a5/src/truetype/ttinterp.c#L2461>
-            CoordAxis::Y => v1.y - v2.y,
+            CoordAxis::Y => v1.y.wrapping_sub(v2.y),
             CoordAxis::Both => {
                 // https://gitlab.freedesktop.org/freetype/freetype/-/blob/57617782464411201ce7bbc93b086c1b4d7d84a5/src/truetype/ttinterp.c#L2402
-                let dx = v1.x - v2.x;
-                let dy = v1.y - v2.y;
+                let dx = v1.x.wrapping_sub(v2.x);
+                let dy = v1.y.wrapping_sub(v2.y);
                 dot14(dx, dy, self.dual_proj_vector.x, self.dual_proj_vector.y)
             }
         }
